@@ -56,6 +56,18 @@ def jobs_for(tier, rng):
         jobs.append({"mdp": m, "kind": "PVI", "gamma": g, "eps": [rng.choice([1, 1, 2]), rng.choice([0, 1, 2])],
                      "period": p, "clear": rng.random() < 0.5, "calls": rng.choice(seqs),
                      "mbs": rng.choice([2, 1024]), "tag": f"PVI{k}"})
+    # another solver instance is constructed between two solve() calls of this one
+    for k in range(6 if tier == "quick" else 24):
+        kind = ["VI", "SAVI", "RVI", "PVI"][k % 4]
+        m = gen.unichain(rng, v0max=2) if kind == "RVI" else (gen.ring(rng, 3, extra=2, v0max=1) if kind == "PVI"
+                                                               else gen.union(rng, 5, PD=2, v0max=2))
+        job = {"mdp": m, "kind": kind, "gamma": [1, 1] if kind in ("RVI", "PVI") else [1, 2], "eps": [1, 8],
+               "test": "span", "calls": [2, 3], "mbs": 5, "shuffle": False,
+               "interloper": {"jax_double_precision": k % 2 == 1, "verbose": 3 if k % 3 == 0 else 0, "gamma": 0.5},
+               "tag": f"interloper-{kind}{k}"}
+        if kind == "PVI":
+            job.update({"period": 2, "clear": False})
+        jobs.append(job)
     # long runs: integer-valued undiscounted deterministic MDPs never leave the 32-bit range, so hundreds of
     # sweeps (and several calls) can be judged exactly
     for k in range(4 if tier == "quick" else 16):
